@@ -29,11 +29,17 @@ func ruleC06TagExit(p *Prog, a *Anchors, r *Report) {
 		if _, isSig := m.Signature.Results().At(0).Type().Underlying().(*types.Signature); !isSig {
 			continue
 		}
-		for _, b := range m.Blocks {
-			for _, in := range b.Instrs {
-				if u, ok := in.(*ssa.UnOp); ok && u.Op == token.MUL {
-					if g, isG := u.X.(*ssa.Global); isG && g.Name() == "TokenSymbols" {
-						st = m
+		// … directly, or in a helper method it calls (acceptSymbol())
+		for _, fn := range clusterOf(p, m, 1) {
+			if fn != m && (fn.Signature.Recv() == nil || structOf(fn.Signature.Recv().Type()) != lex) {
+				continue
+			}
+			for _, b := range fn.Blocks {
+				for _, in := range b.Instrs {
+					if u, ok := in.(*ssa.UnOp); ok && u.Op == token.MUL {
+						if g, isG := u.X.(*ssa.Global); isG && g.Name() == "TokenSymbols" {
+							st = m
+						}
 					}
 				}
 			}
@@ -87,6 +93,37 @@ func ruleC06TagExit(p *Prog, a *Anchors, r *Report) {
 		{
 			if dominatedByCall(ret, isEmit) {
 				r.OK(key, p.InstrPos(ret), "returns behind the emission of a symbol")
+				continue
+			}
+			// … or behind the true result of a helper that emits whenever it answers true (sym, found := l.acceptSymbol())
+			viaHelper := Guarded(ret, func(cond ssa.Value, pol bool) bool {
+				ex, ok := cond.(*ssa.Extract)
+				if !ok || !pol {
+					return false
+				}
+				c, ok := ex.Tuple.(*ssa.Call)
+				if !ok || c.Common().StaticCallee() == nil {
+					return false
+				}
+				h := c.Common().StaticCallee()
+				if !p.InPkg(h) || h.Blocks == nil || ex.Index != h.Signature.Results().Len()-1 {
+					return false
+				}
+				nTrue := 0
+				for _, hr := range returnsOf(h) {
+					k, isK := hr.Results[ex.Index].(*ssa.Const)
+					if isK && k.Value != nil && k.Value.String() == "false" {
+						continue
+					}
+					nTrue++
+					if !dominatedByCall(hr, isEmit) {
+						return false
+					}
+				}
+				return nTrue > 0
+			})
+			if viaHelper {
+				r.OK(key, p.InstrPos(ret), "returns behind a helper that has emitted a symbol")
 				continue
 			}
 			if dominatedByCall(ret, isErrReport) {
